@@ -332,7 +332,9 @@ def run(rc):
     # rule-body: a cut in a rule body without a choice can never prune (A -> alpha | fail); it is the negative control
     # optional-in-optional: [[x ~ y]] gives nothing whether the inner optional is skipped or fails committed and is taken back,
     # so the cut never changes the documented outcome there; what is checked is that the implementation agrees (it did not)
-    missing = set(n for n, _, _ in CONTEXTS) - {'rule-body', 'optional-in-optional'} - set(rc.total.sets.get('contexts_pruned', ()))
+    # pjoin-nullable-sep: the join commits after every separator by itself, so the explicit cuts inside the element change nothing
+    # there; the context checks the implicit commit when the separator matches nothing
+    missing = set(n for n, _, _ in CONTEXTS) - {'rule-body', 'optional-in-optional', 'pjoin-nullable-sep'} - set(rc.total.sets.get('contexts_pruned', ()))
     if missing:
         rc.violation('vacuous: no input is pruned by a cut in contexts ' + ','.join(sorted(missing)))
     rc.assumptions += [
